@@ -151,8 +151,12 @@ static void doSnmp(const char *dg, const char *tail, int faithful)
     if (community) xfree(community);
 }
 
-int main(void)
+int main(int argc, char **argv)
 {
+    if (argc > 1 && !strcmp(argv[1], "--dump")) {
+        printf("sizeof_int %zu\n", sizeof(int));
+        return 0;
+    }
     static char line[3 * ARENA + 64];
     arena = malloc(ARENA);
     vfArena = arena;
